@@ -397,7 +397,10 @@ def solve (L : NLits α) (S : Setup α) (ode jac : Nat → α → Array α → A
     let safety := L.safety * (L.two * mi + L.one) / (L.two * mi + Num.ofNat (iters + 1))
     scale := scaleOf L S.atol S.rtol yNew n
     let errVec : Array α := (Array.range n).map fun i => g errorConst order * g delta i
-    let errorNorm := weightedRms L errVec scale
+    let errorNorm0 := weightedRms L errVec scale
+    -- "A new state that is not finite is never accepted"
+    let yNewV := yNew
+    let errorNorm := if (List.range n).all (fun i => !(Num.isNaN (g yNewV i - g yNewV i))) then errorNorm0 else L.inf
     if errorNorm > L.one then
       let factor := Num.fmax (safety * Num.pow errorNorm (-L.one / (Num.ofNat order + L.one))) L.minFactor
       d := changeD L d order factor
